@@ -123,7 +123,6 @@ UNITS = {
                                                "C03_source", "C04_no_dead_end_source", "C04_no_dead_end_source_any"]},
     },
     "repair": {
-        "enabled": False,                      # switched on once every proof file of the unit is complete
         "functions": translate_minipy.REPAIR_FUNCS,
         "generate": lambda repo, d: translate_minipy.generate_repair(repo, os.path.join(d, "RepairGen.v")),
         "refuse": translate_minipy.Refuse,
@@ -131,8 +130,10 @@ UNITS = {
         "stages": [["RepairRepr.v"], ["PathMatchingGenProofs.v", "RepairDnaGenProofs.v"], ["RepairKnotGenProofs.v"]],
         "deps": ["Py.v", "Kmer.v", "Convert.v", "Coder.v", "Repair.v", "Spec.v", "RepairSpec.v", "MiniPyR.v", "MiniPyREnc.v",
                  "Proofs/MiniPyRLemmas.v", "Proofs/RepairProofs.v", "Proofs/Repair8Proofs.v", "Proofs/Repair8MultiProofs.v",
-                 "Proofs/TerminationProofs.v"],
-        "theorems": {},
+                 "Proofs/TerminationProofs.v", "Proofs/VTProofs.v", "GraphSpec.v", "CoderSpec.v"],
+        "theorems": {"PathMatchingGenProofs.v": ["path_matching_gen", "path_matching_gen_nonneg"],
+                     "RepairDnaGenProofs.v": ["repair_dna_gen"],
+                     "RepairKnotGenProofs.v": ["repair_dna_source", "C09_clean_source", "C09_output_shape_source", "C10_returns_source"]},
     },
     "biofilter": {
         "functions": translate_minipy.BIOFILTER_FUNCS,
@@ -220,7 +221,7 @@ def run_unit(name, repo, use_cache=True, keep=None):
         for f, names in u.get("theorems", {}).items():
             text = _strip_comments(open(os.path.join(COQ, "Generated", f)).read())
             for nm in names:
-                if not re.search(r"\bTheorem\s+%s\b" % re.escape(nm), text) or not re.search(r"Print Assumptions\s+%s\s*\." % re.escape(nm), text):
+                if not re.search(r"\b(?:Theorem|Corollary|Lemma)\s+%s\b" % re.escape(nm), text) or not re.search(r"Print Assumptions\s+%s\s*\." % re.escape(nm), text):
                     out["log"] = "%s: theorem %s (or its Print Assumptions) is missing" % (f, nm)
                     out["failed_file"] = f
                     return out
